@@ -12,10 +12,10 @@ from simkit.runner import Result, rng_for
 ID = "C03"
 ENGINE = "simnet"
 LEVEL = "exploration"
-TECHNIQUE = "deterministic network simulation of keep-alive histories with hostile server framing; request-id tagged bodies + dirty-socket monitor"
+TECHNIQUE = "deterministic network simulation of keep-alive histories with hostile server framing; and caller-side interrupts injected at I/O steps; request-id tagged bodies + dirty-socket and abandoned-exchange monitors"
 LEVEL_TEXT = (
     "Seeded histories of 2-4 requests on one pool against a scripted origin (framings, keep-alive/close, stray and forged bytes after body-less responses, "
-    "interim 1xx, delayed tails -- including a late tail that is itself a well-formed HTTP response --, early EOF) with every caller disposal; each delivered byte string is checked against what the origin generated for that very request. Sampling."
+    "interim 1xx, delayed tails -- including a late tail that is itself a well-formed HTTP response --, early EOF, and -- in 15 % of the histories -- an interrupt raised in the caller at one I/O step) with every caller disposal; each delivered byte string is checked against what the origin generated for that very request. Sampling."
 )
 LEVEL_NOTE = "trusted: SimSocket/poll semantics (readability at checkout), the scripted origin; plain HTTP and (15 %) direct TLS with the stand-in for ssl.SSLSocket offering pending(); histories <= 4 requests"
 N = {"quick": 40000, "thorough": 600000}
@@ -28,7 +28,7 @@ ASSUMPTIONS = [
     "stray bytes are generated only after self-delimiting responses (Content-Length, chunked, body-less status): after close-delimited or truncated responses extra bytes are body",
     "the origin answers only complete requests and never pipelines",
 ]
-REQUIRED_PROBES = {"quick": ["resp:stray", "reused_connection", "dirty_checkout_discarded", "forged_offered", "embedded_tail_in_flight_after_early_release", "tls_connection_reused"], "thorough": ["resp:stray", "reused_connection", "dirty_checkout_discarded", "forged_offered", "embedded_tail_in_flight_after_early_release", "tls_connection_reused"]}
+REQUIRED_PROBES = {"quick": ["resp:stray", "reused_connection", "dirty_checkout_discarded", "forged_offered", "embedded_tail_in_flight_after_early_release", "tls_connection_reused", "interrupted@request", "interrupted@read", "interrupt_on_a_connection"], "thorough": ["resp:stray", "reused_connection", "dirty_checkout_discarded", "forged_offered", "embedded_tail_in_flight_after_early_release", "tls_connection_reused", "interrupted@request", "interrupted@read", "interrupt_on_a_connection"]}
 
 FORGED = "HTTP/1.1 200 OK\r\nX-Forged: 1\r\nContent-Length: 9\r\n\r\n[FORGED!]"
 HOWS = ["read_all", "read_k_release", "release_unread", "drain", "close_release", "close_only", "stream_all", "stream_part_release", "drop", "data", "read1_k_release", "read1_rest_release", "readinto_k_release"]
@@ -61,8 +61,17 @@ def gen(rng) -> dict:
     for i in range(nreq + rng.choice([0, 1, 3])):
         exchanges.append(gen_exchange(rng))
     if cfg["path"] == "direct_tls":
-        return {"property": ID, "config": cfg, "ops": ops, "exchanges": exchanges, "seg": {"mode": "whole"}}
-    return {"property": ID, "config": cfg, "ops": ops, "exchanges": exchanges, "seg": rng.choice([{"mode": "whole"}, {"mode": "whole"}, {"mode": "fixed", "n": rng.choice([1, 5, 64])}, {"mode": "rand", "seed": rng.randrange(1000), "max": 40}])}
+        sc = {"property": ID, "config": cfg, "ops": ops, "exchanges": exchanges, "seg": {"mode": "whole"}}
+    else:
+        sc = {"property": ID, "config": cfg, "ops": ops, "exchanges": exchanges, "seg": rng.choice([{"mode": "whole"}, {"mode": "whole"}, {"mode": "fixed", "n": rng.choice([1, 5, 64])}, {"mode": "rand", "seed": rng.randrange(1000), "max": 40}])}
+    if rng.random() < 0.15:
+        # the caller is interrupted (KeyboardInterrupt, a green-thread timeout: any BaseException) at one I/O step of the history --
+        # inside a request or inside a read of a response; that exchange "did not end cleanly" by the caller's doing, and half of
+        # these histories make the interrupted request a preloading one whose body arrives later than its header block
+        sc["step_faults"] = [{"at": rng.randrange(1, 30), "kind": "intr"}]
+        if rng.random() < 0.5:
+            cfg["preload"] = True
+    return sc
 
 
 def gen_exchange(rng) -> dict:
@@ -154,6 +163,10 @@ def run(sc: dict) -> Result:
                 return True, fn()
             except (W.SimHang, W.StepLimit) as e:
                 res.bad("hang@" + where, str(e))
+                return False, e
+            except W.SimInterrupt as e:
+                res.probes["interrupted@" + ("request" if where == "request" else "read")] += 1
+                H.strip_tb(e)
                 return False, e
             except Exception as e:
                 if H.is_raw_io_error(e):
@@ -271,6 +284,15 @@ def run(sc: dict) -> Result:
             if ua is not None and q.idx > ua and q.method != "CONNECT" and w.sockets[q.sid].tags.get("wrote_after_unclean_seen"):
                 res.bad("unclean_connection_reused", f"request {q.idx} ({q.method} {q.target}) was written on socket {q.sid}, whose exchange {ua} had been cut short by the server")
                 break
+        # ... and so does a connection whose exchange the caller abandoned through an interrupt: whatever of that exchange is still on
+        # its way would answer the next request
+        for q in w.requests:
+            ia = w.sockets[q.sid].tags.get("interrupted_at_request")
+            if ia is not None and q.idx >= ia and q.method != "CONNECT":
+                res.bad("interrupted_connection_reused", f"request {q.idx} ({q.method} {q.target}) was written on socket {q.sid} after an interrupt had abandoned an exchange on it")
+                break
+        if any(s_.tags.get("interrupted_at_request") is not None for s_ in w.sockets):
+            res.probes["interrupt_on_a_connection"] += 1
         if any(s_.tags.get("dirty_at_write") for s_ in w.sockets):
             res.probes["request_written_on_dirty_socket"] += 1
         sids = [q.sid for q in w.requests]
